@@ -295,7 +295,9 @@ def check_insitu(c, rec):
         rest = np.array([j for j in range(n) if j not in set(keep.tolist())])
         gap = (w[keep].min() - w[rest].max()) if r > 0 else (w[rest].min() - w[keep].max())
         if gap < 2e-2 * w.max() or (k > 1 and np.min(np.abs(np.diff(np.sort(w[keep])))) < 0):
-          rec.skip("insitu-no-spectral-gap")
+          # per statistic and step (a case has up to 9 statistics x 4 steps): counted; the CASE is a skip only when none of
+          # its statistics could be compared
+          rec.count("insitu_statistics_without_spectral_gap")
           continue
         Uk = U[:, keep]
         Dref = (Uk * root[keep]) @ Uk.T + root[rest].mean() * (np.eye(n) - Uk @ Uk.T)
@@ -311,6 +313,8 @@ def check_insitu(c, rec):
         if e > 1e-4:
           rec.violation("insitu-packed-root", "step %d leaf %s axis %d: stored packed root of a %dx%d statistic (rank %d) differs from the exact truncated root by %.3g rel" % (t, kk, i, n, n, r, e), c)
           return
+  if checked == 0:
+    rec.skip("insitu-no-spectral-gap")
   rec.case(util.key_hash(c), checked > 0, sample=c)
 
 
